@@ -197,6 +197,14 @@ fn case_whist(c: &mut Cur) -> Result<Vec<W>, BadCase> {
         shp.0.borrow_mut().fault = Some((fk as usize, fpers));
     } else if fdest == 2 {
         shx.0.borrow_mut().fault = Some((fk as usize, fpers));
+    } else if fdest == 3 {
+        // short writes: both destinations accept at most chunks[i] bytes on the i-th raw write
+        let c = (fk.max(1)) as usize;
+        let sched: Vec<usize> = (0..200_000usize)
+            .map(|i| if fpers { c } else { [c, 1, c + 3, 2, c * 2][i % 5] })
+            .collect();
+        shp.0.borrow_mut().chunks = sched.clone();
+        shx.0.borrow_mut().chunks = sched;
     }
     let (shp2, shx2) = (shp.clone(), shx.clone());
     let r = std::panic::catch_unwind(std::panic::AssertUnwindSafe(move || -> Option<Vec<Result<(), Error>>> {
